@@ -24,8 +24,8 @@ RULE = ('tables from tables.rand_spec (every table replayed through a layout rec
 TRUSTED = ['hand-written model coq/Model/Reorder.v (+ transpose_t of Model/Table.v) tied to biom/table.py by this correspondence run',
            'biom.util.natsort is exercised by the run only: the model receives the order it produced, the oracle recomputes a natural '
            'order independently']
-ASSUMPTIONS = ['default error profile (duplicate ids raise); metadata dicts are non-empty (the constructor turns all-empty metadata '
-               'into None, which belongs to C17)']
+ASSUMPTIONS = ['default error profile (duplicate ids raise)',
+               'metadata None and {} of an id are the same thing for the oracle (the constructor normalises; the model follows it exactly)']
 
 AX = {'observation': 0, 'sample': 1}
 MODES = {'observation': 0, 'sample': 1, 'both': 2, 'detect': 3, 'foo': 4}
@@ -87,8 +87,28 @@ def run_impl(c):
         return ['crash', type(e).__name__, str(e)[:200]]
 
 
+def apply_pre(t, pre):
+    """a prior history that used to leave metadata as a tuple of all-empty dicts (F40, repaired 16e406b1):
+    the content it denotes is that of the spec (no metadata on the sample axis)"""
+    if pre == 'add_empty_md':
+        t.add_metadata({str(t.ids()[-1]): {}}, axis='sample')
+    elif pre == 'filter_to_empty_md':
+        # the spec's last sample carries the only non-empty metadata and is filtered away in place
+        t.filter(list(t.ids())[:-1], axis='sample', inplace=True)
+    return t
+
+
+def _pre_spec(c):
+    """the spec of the table the operation under test really works on"""
+    s = c['spec']
+    if c.get('pre') == 'filter_to_empty_md':
+        return dict(s, sids=s['sids'][:-1], mat=[row[:-1] for row in s['mat']], smd=None if s['smd'] is None else s['smd'][:-1])
+    return s
+
+
 def _run_impl(c):
-    t = T.build(c['spec'])
+    t = apply_pre(T.build(c['spec']), c.get('pre'))
+    c = dict(c, spec=_pre_spec(c))
     k = c['kind']
     try:
         if k == 'sort_order':
@@ -134,6 +154,7 @@ def _coder(c):
 
 
 def encode(c):
+    c = dict(c, spec=_pre_spec(c))
     cd = _coder(c)
     tb = cd.table(T.spec_content(c['spec']))
     k = c['kind']
@@ -162,6 +183,7 @@ def encode(c):
 
 
 def decode(tree, c):
+    c = dict(c, spec=_pre_spec(c))
     cd = _coder(c)
     if tree[0] == -1:
         return ['err', tree[1], True] if c['kind'] == 'update_ids' else ['err', tree[1]]
@@ -179,8 +201,10 @@ def _by_id(s):
     for i, o in enumerate(s['oids']):
         for j, x in enumerate(s['sids']):
             cells[(o, x)] = s['mat'][i][j] if s['mat'] and s['mat'][i] else 0
-    omd = {o: (None if s['omd'] is None else s['omd'][i]) for i, o in enumerate(s['oids'])}
-    smd = {x: (None if s['smd'] is None else s['smd'][j]) for j, x in enumerate(s['sids'])}
+    # "no metadata" and "empty metadata" are the same thing for an id (the constructor turns an axis whose
+    # entries are all empty into None)
+    omd = {o: ({} if s['omd'] is None else (s['omd'][i] or {})) for i, o in enumerate(s['oids'])}
+    smd = {x: ({} if s['smd'] is None else (s['smd'][j] or {})) for j, x in enumerate(s['sids'])}
     return cells, omd, smd
 
 
@@ -247,6 +271,7 @@ def oracle(c, obs):
         return ['implementation crashed: %s' % obs[1:]]
     if obs and obs[0] == 'incoherent':
         return ['the result answers by id differently than by position: %s' % obs[1]]
+    c = dict(c, spec=_pre_spec(c))
     k = c['kind']
     orig = canon(T.norm_snap(T.spec_content(c['spec'])))
     ax = c.get('axis')
@@ -479,6 +504,41 @@ def gen(rng, tier):
             q = p + ['nope']
             rng.shuffle(q)
             yield {'kind': 'sort_order', 'spec': spec, 'axis': axis, 'order': q, 'otype': 'list'}
+    # 2b. partly empty metadata (entries {} / None next to real ones) x sub-list orders, permutations, renamings,
+    #     transpose, copy, align_to: a selection that keeps only ids with empty metadata ends up without metadata
+    for _ in range(70 * n):
+        spec = _spec(rng, max_r=4, max_c=4)
+        for key, ids in (('omd', spec['oids']), ('smd', spec['sids'])):
+            if rng.random() < 0.8:
+                full = spec[key] or [{'g': 'g%d' % k} for k in range(len(ids))]
+                spec[key] = [rng.choice([{}, None, m, m]) for m in full]
+                if all(not m for m in spec[key]) and rng.random() < 0.5:
+                    spec[key][0] = full[0]
+        axis = rng.choice(['observation', 'sample'])
+        ids = list(_ids(spec, axis))
+        md = spec['omd'] if axis == 'observation' else spec['smd']
+        empties = [i for k, i in enumerate(ids) if md is not None and not md[k]]
+        r = rng.random()
+        if r < 0.35 and empties:
+            sub = list(empties)
+            rng.shuffle(sub)
+            yield {'kind': 'sort_order', 'spec': spec, 'axis': axis, 'order': sub[:rng.randint(1, len(sub))], 'otype': 'list'}
+        elif r < 0.55:
+            p = list(ids)
+            rng.shuffle(p)
+            yield {'kind': 'sort_order', 'spec': spec, 'axis': axis, 'order': p[:rng.randint(0, len(p))], 'otype': 'list'}
+        elif r < 0.7:
+            p = list(ids)
+            rng.shuffle(p)
+            yield {'kind': rng.choice(['sort_order', 'perm_inverse']), 'spec': spec, 'axis': axis, 'order': p, 'otype': 'list'}
+        elif r < 0.8:
+            yield {'kind': rng.choice(['transpose', 'transpose2', 'copy']), 'spec': spec}
+        elif r < 0.9:
+            kind, pairs, strict = _renaming(rng, ids, list(_ids(spec, 'sample' if axis == 'observation' else 'observation')))
+            yield {'kind': 'update_ids', 'spec': spec, 'axis': axis, 'id_map': pairs, 'strict': strict,
+                   'inplace': rng.random() < 0.5, 'rkind': kind}
+        else:
+            yield {'kind': 'align_to', 'spec': spec, 'other': _other_for(rng, spec, 'both'), 'mode': rng.choice(['both', 'detect']), 'how': 'both'}
     # 3. sort
     for _ in range(120 * n):
         spec = _tricky_spec(rng) if rng.random() < 0.7 else _spec(rng, max_r=5, max_c=5)
@@ -556,6 +616,8 @@ def classify(c):
     if c['kind'] == 'align_to':
         tags.append('align:%s/%s' % (c['mode'], c.get('how', '?')))
     tags.append('md:%s%s' % ('o' if c['spec'].get('omd') else '-', 's' if c['spec'].get('smd') else '-'))
+    if any(m is not None and any(not x for x in m) for m in (c['spec'].get('omd'), c['spec'].get('smd'))):
+        tags.append('md-partly-empty')
     return tags
 
 
